@@ -58,6 +58,18 @@ func genPlugins(rng *rand.Rand, indent string) (string, []PlugWant) {
 		}
 		want = append(want, PlugWant{Name: name, Args: args})
 	}
+	if rng.Intn(6) == 0 {
+		// flow style: plugins: [{dns: 'a b'}, {mtu: 1500}] - the same YAML value
+		var items []string
+		for _, p := range want {
+			if len(p.Args) == 0 {
+				items = append(items, fmt.Sprintf("{%s: ''}", p.Name))
+			} else {
+				items = append(items, fmt.Sprintf("{%s: '%s'}", p.Name, strings.Join(p.Args, " ")))
+			}
+		}
+		return "FLOW[" + strings.Join(items, ", ") + "]\n", want
+	}
 	for _, p := range want {
 		switch {
 		case len(p.Args) == 0 && rng.Intn(2) == 0:
@@ -238,14 +250,18 @@ func GenConfDoc(rng *rand.Rand, mcast4, mcast6 []string) *ConfDoc {
 			case "plugins-map":
 				sb.WriteString("  plugins:\n    dns: 1.1.1.1\n")
 			case "item-two-keys":
-				txt, _ := genPlugins(rng, "    ")
+				txt := "    - searchdomains: 'example.org'\n"
 				sb.WriteString("  plugins:\n" + txt + "    - dns: 1.1.1.1\n      router: 10.0.0.1\n")
 			case "item-scalar":
-				txt, _ := genPlugins(rng, "    ")
+				txt := "    - searchdomains: 'example.org'\n"
 				sb.WriteString("  plugins:\n" + txt + "    - justaname\n")
 			default:
 				txt, pw := genPlugins(rng, "    ")
-				sb.WriteString("  plugins:\n" + txt)
+				if strings.HasPrefix(txt, "FLOW") {
+					sb.WriteString("  plugins: " + strings.TrimPrefix(txt, "FLOW"))
+				} else {
+					sb.WriteString("  plugins:\n" + txt)
+				}
 				w.Plugins = pw
 			}
 		}
@@ -283,15 +299,26 @@ func GenConfDoc(rng *rand.Rand, mcast4, mcast6 []string) *ConfDoc {
 			default: // list
 				n := 1 + rng.Intn(4)
 				badAt := rng.Intn(n)
-				sb.WriteString("  listen:\n")
+				flow := rng.Intn(5) == 0
+				var items []string
+				if !flow {
+					sb.WriteString("  listen:\n")
+				}
 				for i := 0; i < n; i++ {
 					b := ""
 					if i == badAt {
 						b = badEntry
 					}
 					ls := genListen(rng, v6, mc, b)
-					fmt.Fprintf(&sb, "    - '%s'\n", ls.text)
+					if flow {
+						items = append(items, "'"+ls.text+"'")
+					} else {
+						fmt.Fprintf(&sb, "    - '%s'\n", ls.text)
+					}
 					w.Addrs = append(w.Addrs, ls.want...)
+				}
+				if flow {
+					sb.WriteString("  listen: [" + strings.Join(items, ", ") + "]\n")
 				}
 			}
 		}
